@@ -34,6 +34,9 @@ type Solver struct {
 	Errors    []string
 	nonBV     []int // per push level: number of asserted terms that are not pure bit-vector
 	tactic    bool  // use (check-sat-using qfbv) for pure bit-vector queries
+	lines     chan string
+	stack     [][]*Term // asserted terms per push level (to rebuild the context after a restart)
+	Restarts  int
 }
 
 func NewSolver(bin string, timeoutMs int, logw io.Writer) (*Solver, error) {
@@ -63,10 +66,26 @@ func (s *Solver) start() error {
 		return err
 	}
 	s.cmd, s.in, s.out = cmd, in, bufio.NewReaderSize(out, 1<<16)
+	lines := make(chan string, 1024)
+	s.lines = lines
+	go func(r *bufio.Reader) {
+		for {
+			l, err := r.ReadString('\n')
+			if err != nil {
+				lines <- "(error \"solver died\")"
+				close(lines)
+				return
+			}
+			lines <- l
+		}
+	}(s.out)
 	s.emitted = map[int]bool{}
 	s.nvars, s.ntables, s.nufs, s.depth = 0, 0, 0, 0
 	s.nonBV = []int{0}
-	s.tactic = !strings.Contains(s.bin, "cvc5")
+	if s.stack == nil {
+		s.stack = [][]*Term{nil}
+	}
+	s.tactic = !strings.Contains(s.bin, "cvc5") && os.Getenv("GOSYM_NO_TACTIC") == ""
 	s.send("(set-option :global-declarations true)")
 	s.send("(set-option :produce-models true)")
 	if strings.Contains(s.bin, "cvc5") {
@@ -90,6 +109,7 @@ func (s *Solver) Close() {
 // Restart drops all solver state (used to bound memory on long runs).
 func (s *Solver) Restart() error {
 	s.Close()
+	s.stack = nil
 	return s.start()
 }
 
@@ -101,12 +121,21 @@ func (s *Solver) send(line string) {
 	io.WriteString(s.in, "\n")
 }
 
+// readLine returns the next non-empty output line, or "timeout" if the solver
+// does not answer within the per-query limit plus a grace period (the caller
+// then restarts the solver).
 func (s *Solver) readLine() string {
+	limit := time.Duration(s.timeoutMs)*2*time.Millisecond + 20*time.Second
 	for {
-		l, err := s.out.ReadString('\n')
-		if err != nil {
-			s.Errors = append(s.Errors, "solver died: "+err.Error())
-			return "(error \"solver died\")"
+		var l string
+		var ok bool
+		select {
+		case l, ok = <-s.lines:
+			if !ok {
+				return "(error \"solver died\")"
+			}
+		case <-time.After(limit):
+			return "timeout"
 		}
 		l = strings.TrimSpace(l)
 		if l == "" {
@@ -180,6 +209,7 @@ func (s *Solver) Push() {
 	s.send("(push 1)")
 	s.depth++
 	s.nonBV = append(s.nonBV, 0)
+	s.stack = append(s.stack, nil)
 }
 
 func (s *Solver) Pop(n int) {
@@ -189,6 +219,7 @@ func (s *Solver) Pop(n int) {
 	s.send(fmt.Sprintf("(pop %d)", n))
 	s.depth -= n
 	s.nonBV = s.nonBV[:len(s.nonBV)-n]
+	s.stack = s.stack[:len(s.stack)-n]
 }
 
 func (s *Solver) Assert(t *Term) {
@@ -196,6 +227,28 @@ func (s *Solver) Assert(t *Term) {
 	s.send("(assert " + t.ref() + ")")
 	if t.NonBV {
 		s.nonBV[len(s.nonBV)-1]++
+	}
+	s.stack[len(s.stack)-1] = append(s.stack[len(s.stack)-1], t)
+}
+
+// recover restarts a solver that does not answer and rebuilds the assertion stack.
+func (s *Solver) recoverHung() {
+	s.Restarts++
+	old := s.stack
+	s.Close()
+	s.stack = nil
+	if err := s.start(); err != nil {
+		s.Errors = append(s.Errors, "(error \"solver restart failed\")")
+		return
+	}
+	s.stack = [][]*Term{nil}
+	for lvl, ts := range old {
+		if lvl > 0 {
+			s.Push()
+		}
+		for _, t := range ts {
+			s.Assert(t)
+		}
 	}
 }
 
@@ -239,22 +292,43 @@ func (s *Solver) Check(extra ...*Term) (Result, map[string]uint64) {
 			s.send("(assert " + e.ref() + ")")
 		}
 	}
-	useTactic := s.tactic && s.pureBV(extra)
-	if useTactic {
-		s.send("(check-sat-using qfbv)")
-	} else {
-		s.send("(check-sat)")
+	// stage 1: incremental solver with a short limit; stage 2 (pure bit-vector
+	// queries): bit-blasting tactic; stage 3: incremental solver, full limit
+	stages := []string{"(check-sat)"}
+	if s.timeoutMs > 1000 {
+		stages = []string{"short", "(check-sat)"}
+		if s.tactic && s.pureBV(extra) {
+			stages = []string{"short", fmt.Sprintf("(check-sat-using (try-for qfbv %d))", s.timeoutMs), "(check-sat)"}
+		}
 	}
 	res := Unknown
-retry:
-	for {
-		l := s.readLine()
-		if strings.HasPrefix(l, "(error") {
-			s.Errors = append(s.Errors, l)
-			if strings.Contains(l, "solver died") {
-				break
+	for _, st := range stages {
+		if st == "short" {
+			s.send("(set-option :timeout 400)")
+			s.send("(check-sat)")
+		} else {
+			s.send(st)
+		}
+		l := ""
+		for {
+			l = s.readLine()
+			if strings.HasPrefix(l, "(error") {
+				s.Errors = append(s.Errors, l)
+				if strings.Contains(l, "solver died") {
+					break
+				}
+				continue
 			}
-			continue
+			break
+		}
+		if st == "short" {
+			s.send(fmt.Sprintf("(set-option :timeout %d)", s.timeoutMs))
+		}
+		if l == "timeout" {
+			// hung inside a query: kill, restart, rebuild; the query is undecided
+			s.recoverHung()
+			s.QUnknown++
+			return Unknown, nil
 		}
 		switch l {
 		case "sat":
@@ -264,13 +338,9 @@ retry:
 		default:
 			res = Unknown
 		}
-		break
-	}
-	if res == Unknown && useTactic {
-		// second opinion from the default (incremental) solver
-		useTactic = false
-		s.send("(check-sat)")
-		goto retry
+		if res != Unknown || strings.Contains(l, "solver died") {
+			break
+		}
 	}
 	var model map[string]uint64
 	if res == Sat {
@@ -311,6 +381,11 @@ func (s *Solver) getModel() map[string]uint64 {
 	started := false
 	for {
 		l := s.readLine()
+		if l == "timeout" {
+			s.recoverHung()
+			s.Errors = append(s.Errors, "(error \"solver hung while printing a model\")")
+			return m
+		}
 		if strings.HasPrefix(l, "(error") {
 			s.Errors = append(s.Errors, l)
 			return m
